@@ -96,6 +96,22 @@ theorem conversions_reject_nan_inf (rnd : Rat → Rat) :
   · unfold dbfsToPctF; rw [if_neg (by simp [FVal.lt])]; exact mapRangeF_not_inRange rfl
   · unfold dbfsToPctF; rw [if_neg (by simp [FVal.lt])]; exact mapRangeF_not_inRange rfl
 
+/-- the defect repaired by `fix: map_range rejects NaN as out of range`: the pinned guard
+    `value < in_min or value > in_max` let NaN through (and agreed with the repaired guard
+    on every other float), so `pct_to_dbfs(nan)` returned NaN -/
+theorem pinned_map_range_guard_passes_nan (lo hi : Rat) :
+    pinnedGuardRejects lo hi .nan = false ∧ inRangeF lo hi .nan = false ∧
+    ∀ x, x ≠ .nan → pinnedGuardRejects lo hi x = !(inRangeF lo hi x) := by
+  refine ⟨rfl, rfl, ?_⟩
+  intro x hx
+  cases x with
+  | nan => exact absurd rfl hx
+  | ninf => rfl
+  | pinf => rfl
+  | fin q =>
+    simp only [pinnedGuardRejects, inRangeF, lt_fin_fin, le_fin_fin]
+    by_cases h1 : lo ≤ q <;> by_cases h2 : q ≤ hi <;> simp [h1, h2, not_lt.mpr, not_le.mp]
+
 /-! ## exact arithmetic (`rnd = id`) -/
 
 /-- percent → dBFS is strictly increasing on the whole range [0, 100] (the mute sentinel
